@@ -746,6 +746,9 @@ class Interp(object):
                 if start is not None and start != ("const", 0):
                     idx_t = ("bin", "+", idx_t, start)  # enumerate(xs, start): positions are shifted
                 elem = ("tuple", (idx_t, ("elem", it[2][0], self.site(st))))
+            rl = self._range_len(it)
+            if rl is not None:
+                elem = ("index", rl, self.site(st))  # for i in range(len(xs)): i is a position in xs
             cur = list(self.assign(st.target, elem, p, st))
             for rnd in range(max(1, self.cfg.unroll)):
                 nxt = []
@@ -762,6 +765,8 @@ class Interp(object):
                                 e2 = ("elem", it, self.site(st), rnd + 2)
                                 if isinstance(elem, tuple) and elem[0] == "tuple":
                                     e2 = ("tuple", (("index", it[2][0], self.site(st), rnd + 2), ("elem", it[2][0], self.site(st), rnd + 2)))
+                                elif rl is not None:
+                                    e2 = ("index", rl, self.site(st), rnd + 2)
                                 nxt.extend(self.assign(st.target, e2, s, st))
                             else:
                                 self.emit(s, "loop", st, ("exit", "after-iteration"))
@@ -776,6 +781,17 @@ class Interp(object):
                 if not cur:
                     break
         return out
+
+    @staticmethod
+    def _range_len(it):
+        """xs for the iterable range(len(xs)) / range(0, len(xs))"""
+        if isinstance(it, tuple) and it[0] == "call" and it[1] == ("name", "range") and not it[3]:
+            a = it[2]
+            if len(a) == 2 and a[0] == ("const", 0):
+                a = a[1:]
+            if len(a) == 1 and isinstance(a[0], tuple) and a[0][0] == "call" and a[0][1] == ("name", "len") and len(a[0][2]) == 1 and not a[0][3]:
+                return a[0][2][0]
+        return None
 
     def known_emptiness(self, it, path):
         """True: the iterable is known non-empty on this path; False: known empty; None: unknown.
@@ -794,6 +810,9 @@ class Interp(object):
                 continue
             if t[0] == "listof" and not t[2]:
                 t = t[1]
+                continue
+            if self._range_len(t) is not None:
+                t = self._range_len(t)
                 continue
             return None
         return None
@@ -1209,6 +1228,8 @@ class Interp(object):
         t = ("sub", b, i)
         if t in p.heap:
             return p.heap[t]
+        if isinstance(i, tuple) and i[0] == "index" and i[1] == b:
+            return ("elem", b) + i[2:]  # xs[position in xs] is that iteration's element
         b = self.deref(b, p)
         if isinstance(b, tuple) and b[0] in ("tuple", "list") and i[0] == "const" and isinstance(i[1], int) and -len(b[1]) <= i[1] < len(b[1]):
             return b[1][i[1]]
